@@ -153,3 +153,48 @@ Section EvalSolveAll.
     unfold run_periods_mon, run_periods_P in E. rewrite E. reflexivity.
   Qed.
 End EvalSolveAll.
+
+(* ---- 4. an explicit infeasible `start` is rejected by solve() as a whole, nothing changes ---- *)
+Section EvalSolveAllReject.
+  Variable num : Type.
+  Variables (sub : num -> num -> num) (absf : num -> num) (ltb : num -> num -> bool)
+            (isfin : num -> bool) (zero : num).
+  Variables (ev before after : hook num).
+  Variable L : Type.
+  Variable locate : L -> locres.
+  Notation solve_M := (solve_M num sub absf ltb isfin zero ev before after L locate).
+
+  Lemma periods_head (span : list L) a b x :
+    (a <= b)%nat -> (b < length span)%nat -> nth_error span a = Some x ->
+    exists rest, SolveAllFacts.periods L span a b = (Z.of_nat a, x) :: rest.
+  Proof.
+    intros Hab Hb Hx. unfold SolveAllFacts.periods.
+    replace (S b - a)%nat with (S (b - a)) by lia. cbn [seq map].
+    destruct (skipn a span) as [|y l] eqn:E.
+    - exfalso. assert (H : length (skipn a span) = 0%nat) by (rewrite E; reflexivity). rewrite skipn_length in H. lia.
+    - assert (Hy : nth_error (skipn a span) 0 = Some x).
+      { rewrite <- Hx. clear. revert span. induction a as [|a IH]; intros span; [reflexivity|].
+        destruct span as [|z span]; [reflexivity|]. cbn [skipn nth_error]. apply IH. }
+      rewrite E in Hy. cbn in Hy. inversion Hy; subst. cbn [firstn combine]. eexists. reflexivity.
+  Qed.
+
+  (* for EVERY evaluation oracle and hooks: solve(start=x) where x sits at a position without room for the lags or
+     leads (and end at or after it) raises IndexError before anything is evaluated — the whole state is unchanged *)
+  Theorem solve_infeasible_start_rejected d o (span : list L) x end_ s a b :
+    min_iter o <= max_iter o -> SolveAllFacts.locate_ok L locate span ->
+    length (status s) = length span ->
+    nth_error span a = Some x -> SolveAllFacts.resolves_end L d span end_ b -> (a <= b)%nat ->
+    feasible d (length span) a = false ->
+    solve_M d o span (Some x) end_ s = (s, Raise IndexError).
+  Proof.
+    intros Hmm Hok Hn Hx He Hab Hf.
+    rewrite (SolveAllFacts.solve_eq_fold num sub absf ltb isfin zero ev before after L locate d o span (Some x) end_ s a b Hmm Hok Hx He).
+    pose proof (SolveAllFacts.resolves_end_lt L d span end_ b He) as Hb.
+    destruct (periods_head span a b x Hab Hb Hx) as [rest ->]. cbn [run_periods].
+    rewrite (infeasible_period_rejected num sub absf ltb isfin zero ev before after d o (Z.of_nat a) s a Hmm).
+    - reflexivity.
+    - rewrite Hn, py_pos_nonneg by (pose proof (SolveAllFacts.resolves_end_lt L d span end_ b He); lia).
+      rewrite Nat2Z.id. reflexivity.
+    - rewrite Hn. exact Hf.
+  Qed.
+End EvalSolveAllReject.
